@@ -22,6 +22,7 @@ const (
 	mSingle = ""             // one read path on its own handle
 	mSeq    = "seq-base"     // base := chain.<handle>; base.<first>; base.<second> — both judged
 	mChain  = "chain-return" // tx := chain.<handle>.<first>; tx[.ops].<second> — both judged
+	mInCB   = "in-callback"  // base := chain.<handle>; base.FindInBatches(.., func(){ base.<inner> }) — batches and every inner read judged
 )
 
 // Case is one execution — also the replay format.
@@ -34,6 +35,9 @@ type Case struct {
 	// First is the read path executed before Path (modes seq-base and chain-return).
 	First      string `json:"first,omitempty"`
 	FirstBatch int    `json:"first_batch_size,omitempty"`
+	// Inner (in-callback only): the read issued on the same base handle from
+	// inside every FindInBatches callback.
+	Inner string `json:"inner,omitempty"`
 	// Page (chain-return only): the Limit/Offset calls are made after the first
 	// finisher, on the handle it returned ("total + page"), instead of before it.
 	Page     bool   `json:"page,omitempty"`
@@ -59,6 +63,8 @@ func withBatch(name string, b int) string {
 
 func (c Case) String() string {
 	switch c.Mode {
+	case mInCB:
+		return fmt.Sprintf("%s :: base := chain%s; base -> %s with callback { base -> %s }", c.Chain.String(), handleCall(c.Handle), withBatch(c.Path, c.Batch), c.Inner)
 	case mSeq:
 		return fmt.Sprintf("%s :: base := chain%s; base -> %s; base -> %s", c.Chain.String(), handleCall(c.Handle), withBatch(c.First, c.FirstBatch), withBatch(c.Path, c.Batch))
 	case mChain:
@@ -96,7 +102,8 @@ func asHandle(q *gorm.DB, handle string) *gorm.DB {
 
 // outcome of one case.
 type outcome struct {
-	first    *obs // nil in mode single
+	first    *obs  // nil in mode single
+	inner    []obs // in-callback: one per callback
 	o        obs
 	events   []string
 	panicMsg string
@@ -126,6 +133,15 @@ func execCase(e *h.Env, cs Case, record bool) (out outcome) {
 			base := asHandle(cs.Chain.apply(rootOf(e.DB, rootModel), false), cs.Handle)
 			out.first = &obs{root: e.DB}
 			f.Run(base, cs.Chain, cs.FirstBatch, out.first)
+			p.Run(base, cs.Chain, cs.Batch, &out.o)
+		case mInCB:
+			in := paths[pathIndex(cs.Inner)]
+			base := asHandle(cs.Chain.apply(rootOf(e.DB, rootModel), false), cs.Handle)
+			out.o.hook = func() {
+				io := obs{root: e.DB}
+				in.Run(base, cs.Chain, 0, &io)
+				out.inner = append(out.inner, io)
+			}
 			p.Run(base, cs.Chain, cs.Batch, &out.o)
 		case mChain:
 			f := paths[pathIndex(cs.First)]
@@ -187,8 +203,22 @@ func judge(cs Case, ex *expect, out outcome, ref []string, refOK bool) (fails []
 			fails = append(fails, "first of two reads: "+m)
 		}
 	}
+	if cs.Mode == mInCB {
+		in := paths[pathIndex(cs.Inner)]
+		for i, io := range out.inner {
+			ms := verdict(in, cs.Chain, ex, 0, io, nil, false)
+			for _, m := range ms {
+				fails = append(fails, fmt.Sprintf("read issued inside the FindInBatches callback: %s\n(callback #%d)", m, i+1))
+			}
+			if len(ms) > 0 {
+				break // one report per case is enough
+			}
+		}
+	}
 	for _, m := range verdict(p, cs.Chain, ex, cs.Batch, out.o, ref, refOK) {
-		if cs.Mode == mSeq {
+		if cs.Mode == mInCB {
+			m = "FindInBatches with a read on the same handle inside the callback: " + m
+		} else if cs.Mode == mSeq {
 			m = "second read on the same reusable handle: " + m
 		} else if cs.Mode == mChain {
 			m = "read chained on the handle a finisher returned: " + m
@@ -203,6 +233,12 @@ func describeOutcome(cs Case, out outcome) string {
 	s := describe(p, out.o)
 	if out.first != nil {
 		s = "first{" + describe(paths[pathIndex(cs.First)], *out.first) + "} then " + s
+	}
+	if cs.Mode == mInCB {
+		in := paths[pathIndex(cs.Inner)]
+		for i, io := range out.inner {
+			s += fmt.Sprintf(" inner#%d{%s}", i+1, describe(in, io))
+		}
 	}
 	return s
 }
@@ -249,7 +285,11 @@ func tags(c Case) []string {
 	if no > 1 {
 		t = append(t, kind+"+offset-override")
 	}
-	if p.Last && c.Chain.Order != 0 {
+	if c.Mode == mInCB {
+		in := paths[pathIndex(c.Inner)]
+		t = append(t, "in-callback:"+kindNames[in.Kind])
+	}
+	if p.Last && c.Chain.Order != 0 && !orders[c.Chain.Order].Ties {
 		t = append(t, "last+explicit-order")
 	}
 	if p.PadTo > 0 {
